@@ -215,8 +215,8 @@ EXPORT errno_t _wcsrtombs_s_chk(size_t *restrict retvalp, char *restrict dest,
 #endif
         rc = EOK;
     } else {
-        /* errno is usually EILSEQ */
-        rc = (l <= RSIZE_MAX_STR) ? ESNOSPC : errno;
+        /* (size_t)-1: libc met an illegal wide character, else no space */
+        rc = (l == (size_t)-1) ? EILSEQ : ESNOSPC;
         if (dest) {
             /* the entire srcp must have been copied, if not reset dest
              * to null the string. (only with SAFECLIB_STR_NULL_SLACK)
